@@ -655,6 +655,9 @@ func (f *HistFamily) proofSets(tracked []int) [][]int {
 			return nil
 		}
 		out = append(out, []int{tracked[0]})
+		if n > 3 {
+			out = append(out, []int{tracked[1]}, []int{tracked[n/2], tracked[n/2+1]})
+		}
 		lo := n - 8
 		if lo < 1 {
 			lo = 1
